@@ -96,6 +96,41 @@ def build(cfg):
     return m, mem, wps, rps, doms
 
 
+def init_survives(cfg):
+    """Concrete, on the genuine Simulator: rows are overwritten from a testbench; afterwards the declaration (mem.init), the state
+    after Simulator.reset() and the state a second Simulator starts from must all be the declared contents.  Returns '' or a text."""
+    from amaranth.sim import Simulator
+    w = cfg["shape"][0]
+    want = [v & ((1 << w) - 1) for v in expected_initial_rows(cfg)]
+    with symsim.real_states():
+        m_, mem_, _, _, _ = build(cfg)
+        sim_ = Simulator(m_)
+        seen = {}
+
+        def reader(key):
+            async def tb(ctx):
+                seen[key] = [_as_int(ctx.get(mem_.data[i])) & ((1 << w) - 1) for i in range(cfg["depth"])]
+                if key == "first":
+                    for i in range(cfg["depth"]):
+                        ctx.set(mem_.data[i], (want[i] ^ 1) if w else 0)
+            return tb
+        sim_.add_testbench(reader("first"))
+        sim_.run()
+        declared = [int(v) & ((1 << w) - 1) for v in list(mem_.data.init)]
+        sim_.reset()
+        seen["after reset"] = [_as_int(sim_._engine.get_value(mem_.data[i])) & ((1 << w) - 1) for i in range(cfg["depth"])]
+        sim2 = Simulator(m_)
+        sim2.add_testbench(reader("second simulator"))
+        sim2.run()
+    bad = []
+    if declared != want:
+        bad.append(f"mem.init reads {declared} after the run, declared {want}")
+    for key in ("first", "after reset", "second simulator"):
+        if seen.get(key) != want:
+            bad.append(f"rows seen by '{key}': {seen.get(key)}, declared {want}")
+    return "; ".join(bad)
+
+
 def row_width(cfg):
     return cfg["shape"][0]
 
@@ -387,6 +422,12 @@ def check_config(job):
                         replay={"cfg": cfg, "initial": True}))
     else:
         out.append(dict(r0, status=PROVED))
+    if cfg["shape"][0] and cfg["depth"] and not cfg.get("struct") and cfg.get("array") is None:
+        rs = dict(base, kind="initial contents after a simulation", nontrivial=False,
+                  assertion="simulating a design changes neither the memory's declared initial contents nor what a reset or a second simulator starts from")
+        bad = init_survives(cfg)
+        out.append(dict(rs, status=VIOLATION, detail=f"{text}: {bad}", signature={"kind": "initial-after-run"}, replay={"cfg": cfg, "survives": True}) if bad
+                   else dict(rs, status=PROVED))
     for event in [[]] + event_sets(cfg):
         kind = "comb-read+row-access" if not event else "edge:" + "+".join(event)
         res = dict(base, kind=kind, status=PROVED, detail="", cex=None,
@@ -650,6 +691,10 @@ def replay(path):
         got = [v & ((1 << cfg["shape"][0]) - 1) if isinstance(v, int) else v for v in got]
         print(show(cfg), "rows at time zero", got, "declared", want)
         return 1 if got != want else 0
+    if r.get("survives"):
+        bad = init_survives(cfg)
+        print(show(cfg), bad or "declaration intact")
+        return 1 if bad else 0
     if r.get("construct"):
         from amaranth.sim import Simulator
         try:
